@@ -149,6 +149,34 @@ pub fn c08(out: &mut Out, rng: &mut Rng, tier: &Tier) {
     c08_type::<Kmer8>(out, seed, tier, &mut counter);
     // p > 8: only the default permutation is feasible (a 4^10-entry table is rebuilt by every call)
     c08_type::<Kmer10>(out, seed, tier, &mut counter);
+    // a read far beyond 65535 bases whose minimizer bucket never changes (70 000 A's and a periodic low-complexity
+    // contig, k = 32, p = 6): lengths, starts and extensions of the pieces must not depend on 16-bit quantities.
+    // Checker only (the list model of a 70 kb scan takes minutes: thorough tier)
+    for (ci, unit) in [vec![0u8], vec![0u8, 0, 0, 0, 0, 0, 1, 2, 3, 1, 2, 2, 3, 1, 3, 3, 2, 1, 1, 2, 3, 2, 1, 3]].iter().enumerate() {
+        counter += 1;
+        if counter % tier.nshards != tier.shard {
+            continue;
+        }
+        let read: Vec<u8> = (0..70_000).map(|i| unit[i % unit.len()]).collect();
+        let k = 32usize;
+        let (maxlen, res) = run_any::<Kmer6>(ci % 2, k, &read, None, true);
+        out.nt = true;
+        if tier.thorough {
+            out.case(
+                "msp.sequence",
+                l(vec![n(maxlen), dna(&read), nu(k), nu(6), l(vec![]), b(true)]),
+                opt(res.as_ref().map(|v| l(v.iter().map(piece_v).collect()))),
+            );
+        }
+        match res {
+            Some(v) => {
+                let all = vec![l(vec![dna(&read), l(v.iter().map(piece_v).collect())])];
+                out.case("chk.msp.tiling", l(vec![nu(k), b(true), l(all)]), n(1u8));
+            }
+            None => out.case("chk.msp.tiling", l(vec![nu(k), b(true), l(vec![])]), V::Bot),
+        }
+        out.nt = false;
+    }
     // the known-finding class of C07 (2k-p > 65535) seen through msp_sequence: k = 32772, p = 8, 65536 A's ->
     // ONE piece built from the wrapped length 0 (empty piece, bogus right extension).  The checker op carries
     // the class in its name; the model line (about 2 min of unary arithmetic) is written in the thorough tier only.
